@@ -43,4 +43,6 @@ def run(rep, fb, tier):
     _pr3.rule_py_highlevel_returns(rep)
     from ..rules import pyrules as _pr4
     _pr4.rule_py_defassign(rep)
+    from ..rules import pybind as _pb2
+    _pb2.rule_py_layout_attrs(rep)
     rep.units = fb.units
